@@ -62,6 +62,14 @@ def desugar(loc, relfile, fn_paths, rules, _pass=0):
                     rewrites.append((a, b, new))
                     records.append({"fn": fp, "rule": "D28 X.collect::<Vec<_>>() [X the iterator parameter]  =>  X",
                                     "original": src[a:b], "rewritten": new})
+            if "D33" in rules:
+                # a clause given as `impl IntoIterator<Item = T>` that the function maps over once: a vector of the items
+                for m in re.finditer(r"impl IntoIterator<Item = ([A-Za-z_0-9]+)>", src[it["start"]:it["end"]]):
+                    a, b = it["start"] + m.start(), it["start"] + m.end()
+                    new = "Vec<" + m.group(1) + ">"
+                    rewrites.append((a, b, new))
+                    records.append({"fn": fp, "rule": "D33 parameter type impl IntoIterator<Item = T>  =>  Vec<T>",
+                                    "original": src[a:b], "rewritten": new})
             if "D25" in rules:
                 # a reason buffer `impl Extend<T> + AsRef<[T]>` is used as a sequence that is appended to and read back:
                 # the anonymous type becomes the stub `PvBuf<T>`, `.extend(std::iter::once(E))` becomes `.pv_push(E)`
@@ -98,6 +106,24 @@ def desugar(loc, relfile, fn_paths, rules, _pass=0):
                     new = f"{recv}.pv_splice({lo}, {hi}, {arg});"
                     rewrites.append((v["call"][0], v["call"][1], new))
                     records.append({"fn": fp, "rule": "D18 let _ = V.splice(LO..HI, ARG);  =>  V.pv_splice(LO, HI, ARG);   (spec/std_vec_splice.rs: the documented effect of Vec::splice whose iterator is dropped at once; panics unless LO <= HI <= len)",
+                                    "original": src[v["call"][0]:v["call"][1]], "rewritten": new})
+                    continue
+                if v["rule"] == "D34":
+                    lhs = src[v["lhs"][0]:v["lhs"][1]]
+                    rhs = src[v["rhs"][0]:v["rhs"][1]]
+                    new = f"{{ let pv_and = {rhs}; {lhs} = {lhs} && pv_and; }}"
+                    rewrites.append((v["call"][0], v["call"][1], new))
+                    records.append({"fn": fp, "rule": "D34 L &= R (bool)  =>  { let r = R; L = L && r; }   (R is evaluated unconditionally, as with `&`)",
+                                    "original": src[v["call"][0]:v["call"][1]], "rewritten": new})
+                    continue
+                if v["rule"] == "D32":
+                    recv = src[v["recv"][0]:v["recv"][1]]
+                    pat = src[v["pat"][0]:v["pat"][1]]
+                    body = src[v["body"][0]:v["body"][1]]
+                    new = (f"{{ let mut pv_c = Vec::new(); let pv_src = {recv}; let mut pv_k: usize = 0; while pv_k < pv_src.len() {{ let {pat} = pv_src[pv_k]; pv_k += 1; "
+                           f"let pv_e = {body}; pv_c.push(pv_e); }} pv_c }}")
+                    rewrites.append((v["call"][0], v["call"][1], new))
+                    records.append({"fn": fp, "rule": "D32 X.into_iter().map(|p| E).collect::<Vec<_>>()  =>  { let mut out = Vec::new(); index loop over X { let e = E; out.push(e) } out }   (X a vector of copyable items)",
                                     "original": src[v["call"][0]:v["call"][1]], "rewritten": new})
                     continue
                 if v["rule"] == "D30":
